@@ -17,6 +17,8 @@ func init() {
 					{Fn: "Harness_C20_min_stdlib", Tiers: "both", Reach: []string{"end"}, Bounds: b},
 					{Fn: "Harness_C20_max_stdlib", Tiers: "both", Reach: []string{"end"}, Bounds: b},
 					{Fn: "Harness_C20_unrestricted", Tiers: "both", Reach: []string{"end"}, Bounds: b},
+					{Fn: "Harness_C20_sequence", Tiers: "both", Reach: []string{"end"}, Bounds: b + "; two consecutive reports, the first with any bound kind, the second with any bound kind or none; sync.Pool modelled as a LIFO that never drops items"},
+					{Fn: "Harness_C20_two_options", Tiers: "both", Reach: []string{"end"}, Bounds: b + "; one report with two bounds of different kinds"},
 				},
 			}},
 			Assumptions: []string{
